@@ -65,6 +65,8 @@ def lastblock(self, m, **kargs):
 '''
 PKCS7_REMOVE = '''
 def remove(self, c):
+    if len(c) == 0:
+        raise PaddingError(c)
     q = c[-1]
     if q > self.blocklen or c[-q:] != bytes([q])*q:
         raise PaddingError(c)
@@ -83,6 +85,8 @@ def lastblock(self, m, **kargs):
 '''
 X923_REMOVE = '''
 def remove(self, c):
+    if len(c) == 0:
+        raise PaddingError(c)
     q = c[-1]
     if q < 1 or q > self.blocklen or c[-q:-1] != b'\\0'*(q-1):
         raise PaddingError(c)
